@@ -129,6 +129,25 @@ def run(tier, seed, replay=None):
                 else:
                     continue
                 break
+        # (4) the expansion is a function of the invocation's tokens alone: the same invocation
+        # expanded after another, unrelated invocation in the same compiler process gives the same text
+        from .c08 import extract_module
+        ncontext = 4 if tier == 'quick' else 30
+        for i, c in enumerate(cases[:ncontext]):
+            other = cases[(i + 1) % len(cases)]
+            world = gp.PRELUDE + gp.world_text(dict(list(c.world.items()) + [(k, v) for k, v in other.world.items() if k not in c.world]))
+            observed = 'pub mod observed {\n    use super::*;\n    disjoint_impls! {\n%s    }\n}\n' % c.invocation()
+            before = 'pub mod before {\n    use super::*;\n    disjoint_impls! {\n%s    }\n}\n' % other.invocation()
+            texts = []
+            for prog in (world + observed + 'fn main() {}\n', world + before + observed + 'fn main() {}\n'):
+                code, out, err = expanded(prog, {}, tmpdirs[0])
+                stats['expansions'] += 1
+                texts.append(extract_module(out, 'observed') if code == 0 else None)
+            stats['context_pairs'] = stats.get('context_pairs', 0) + 1
+            if texts[0] is not None and texts[1] is not None and texts[0] != texts[1]:
+                violations.append(dict(kind='property', request=c.invocation(), program=world + before + observed + 'fn main() {}\n',
+                                       expansion_a=texts[0][-2500:], expansion_b=texts[1][-2500:],
+                                       oracle='the expansion of an invocation differs when another invocation was expanded before it in the same compiler process'))
     finally:
         for d in tmpdirs:
             shutil.rmtree(d, ignore_errors=True)
